@@ -305,6 +305,7 @@ pub struct CoopRun {
     pub blocked_tids: BTreeSet<u32>,
     pub proto_blocks: u64,
     pub proto_transfers: u64,
+    pub proto_nested: u64,
     pub proto_bad_wakes: u64,
 }
 
@@ -601,6 +602,7 @@ pub fn run_parallel(case: &CoopCase, world: Arc<Mutex<World>>, fault_at: Option<
         blocked_tids,
         proto_blocks: proto.blocks,
         proto_transfers: proto.transfers,
+        proto_nested: proto.nested_releases,
         proto_bad_wakes: proto.wakes_not_completed,
     }
 }
@@ -978,6 +980,7 @@ pub fn run_coop_case(which: &str, case: &CoopCase) -> SeqOutcome {
     outc.counters.push(("scheduling_decisions", run.decisions));
     outc.counters.push(("protocol_blocks", run.proto_blocks));
     outc.counters.push(("protocol_transfers", run.proto_transfers));
+    outc.counters.push(("protocol_nested_handover_releases", run.proto_nested));
     outc.counters.push(("protocol_wakes_not_completed", run.proto_bad_wakes));
     if run.proto_bad_wakes > 0 {
         outc.labels.push("wake-with-panic-or-cancel");
